@@ -328,9 +328,11 @@ theorem simL_unlink {m : State} {s : SState} {K : MStack} {l : Nat} {todo : Nat 
           obtain ⟨f', hf', hfd'⟩ := hmemf
           exact countFrames_ne_zero_of_mem hf' hfd'
         refine ⟨d, hdd, ?_⟩
-        intro idx snap _ hLI
+        intro pos snap _ hLI
         rw [← hd', unlinkOrMark_slots_active d l x (hactsome hc0)]
-        exact LI_markFirst l x (h.sl.sorted e' g' d hdd) hLI
+        cases pos with
+        | none => exact hLI
+        | some idx => exact LI_markFirst (idx := idx) l x (h.sl.sorted e' g' d hdd) hLI
       · exact ⟨d'', hsub e' g' d'' hd'' c, fun _ _ _ hh => hh⟩
 
 /-- the pairs `todo` become the stored list of listener `l` -/
